@@ -139,6 +139,24 @@ CLAIMS.update({
         ref="§7 C12"),
 })
 
+CLAIMS.update({
+    "C09": dict(
+        technique="Lean 4 proof of the calendar bijection (day number <-> valid civil date, no bound on the year) and, on top of it, theorems about the small_date rule, DateItem::calculate split into its three steps, to_duration and the date constants; kernel-decided witnesses for the pinned defects + differential oracle against Python's datetime",
+        text="Proof: the model calendar is a bijection (dayNumber_civilFromDays, civilFromDays_dayNumber, civilFromDays_valid, order preserving); small_date "
+             "returns a date exactly for valid in-range triples with month by number or name and the current year as default, and whatever the fields "
+             "are never an invalid date (fromYmd_some_iff, smallDate_*, never_invalid); the regenerated date patterns of en and tr match the spellings' "
+             "token sequences (phrase_*); date +- k days for k < 30 is the date whose day number is k away (add_days_partial, sub_days_partial, "
+             "addDays_dayNumber); + n months keeps the day and moves the month index 12*year+month by n (add_months, month_index_add, "
+             "add_months_general for every N = 12a+b), +- n years (add_years, sub_years), - n months when n < month (sub_months_partial); A to B = "
+             "|dayNumber A - dayNumber B| days, symmetric (to_abs_days, to_symmetric); tomorrow / yesterday are today's neighbours for every clock "
+             "(today_consecutive). PARTIAL where the code violates the property: >= 30 days / >= 5 weeks are re-read as 30-day months (days_30_witness, "
+             "finding C09-G1), month subtraction across January does not borrow a year (sub_months_borrow_witness, C09-G2), an intermediate 29 Feb "
+             "(C09-G3) - the first two are pinned by the repository's tests execute_21..23, 26 and stay open known findings; the check recognises them "
+             "only when the implementation returns exactly what the defect predicts.",
+        note="Trusted: Lean kernel + 3 axioms; chrono's NaiveDate = proleptic Gregorian calendar (model validated on every generated date); month-name/number lexing exercised not modelled; one defect repaired in /repo (Turkish month spellings).",
+        ref="§7 C09"),
+})
+
 NOT_YET = {}
 
 
